@@ -45,7 +45,8 @@ def run_one(sc, prefix=(), seed=0, keep=False):
     probs = []
     try:
         net.submit(m, seed)
-        slack = SLACK + 2 * max(sc.get('lat_grid') or [sc.get('base_lat', 1e-3)]) + 2 * max(sc.get('wake_grid') or [0])
+        slack = SLACK + 2 * max(sc.get('lat_grid') or [sc.get('base_lat', 1e-3)]) + 2 * max(sc.get('wake_grid') or [0]) \
+            + 2 * sc.get('send_cost', 0.0)
         end = w.now + 4.6 + npackets(dll, m['size']) * (0.012 if not p2p else 0.001) * 5
         gave_up = {}
         late = {}
@@ -233,6 +234,12 @@ def shapes(tier):
                     continue
                 out.append({'dll': dll, 'stacks': two(wa, wb), 'base_lat': 1e-3,
                             'msgs': [msg(0x10, 'p2p', 0x20, size)]})
+            if npk == 7:
+                # a blocking driver (20 ms per frame): a window keeps the job thread inside one pass for up to 140 ms; the
+                # timeouts must still be served on time afterwards
+                for (wa, wb) in ((5, 5), (255, 255)):
+                    out.append({'dll': dll, 'stacks': two(wa, wb), 'base_lat': 1e-3, 'send_cost': 0.02,
+                                'msgs': [msg(0x10, 'p2p', 0x20, size)]})
             for kind, dst in (('bam2', 0x42), ('bam1', 255)):
                 if kind == 'bam1' and quick and npk not in (2, 4):
                     continue
